@@ -2,7 +2,8 @@
    Definitions only.
    spec_*  is written from the protocol: Bitcoin Core script/interpreter.cpp (SignatureHash,
            CTransactionSignatureSerializer, GetScriptForMultisig / CScript::EncodeOP_N) and BIP143.
-   lib_*   mirrors /repo bitcoinlib/transactions.py as it is: Transaction.signature / signature_hash /
+   lib_*   mirrors /repo bitcoinlib/transactions.py (with fixes/C01-1 and C01-2; the *_at variants take a flag
+           that selects the code before each repair): Transaction.signature / signature_hash /
            signature_segwit / raw(sign_id, hash_type, 'legacy'), Input.update_scripts (what it leaves in
            locking_script / redeemscript per input kind), Transaction.sign / verify (which digest they use).
    The double hash H and HASH160 are parameters of the section: nothing below depends on what they
@@ -302,25 +303,31 @@ Definition lib_ser_out (o : txout) : option bytes :=
   sh_bind (sh_le 8 (to_value o)) (fun v =>
   sh_bind (lib_varstr (to_script o)) (fun s => Some (v ++ s))).
 
-(* ---- Transaction.raw(sign_id, hash_type, 'legacy') ---- *)
+(* ---- Transaction.raw(sign_id, hash_type, 'legacy') ----
+   [bypos] selects how the input that receives the script is found:
+   true  = "sign_id == n" for n, i in enumerate(self.inputs)   (the repaired code, fixes/C01-2),
+   false = "sign_id == i.index_n"                              (the code before the repair). *)
 
-Definition lib_legacy_in (sid : Z) (x : sin) : option bytes :=
+Definition lib_legacy_in_at (bypos : bool) (sid : Z) (j : nat) (x : sin) : option bytes :=
   sh_bind (lib_outpoint (si_in x)) (fun op =>
-  sh_bind (if sid =? si_index x then sh_bind (lib_legacy_script x) lib_varstr else Some [x00]) (fun s =>
+  sh_bind (if sid =? (if bypos then Z.of_nat j else si_index x)
+           then sh_bind (lib_legacy_script x) lib_varstr else Some [x00]) (fun s =>
   sh_bind (sh_le 4 (ti_seq (si_in x))) (fun q => Some (op ++ s ++ q)))).
 
 Definition lib_legacy_out (o : txout) : option bytes :=
   if to_value o <? 0 then None else lib_ser_out o.
 
-Definition lib_legacy_preimage (t : stx) (sid : Z) (ht : Z) : option bytes :=
+Definition lib_legacy_preimage_at (bypos : bool) (t : stx) (sid : Z) (ht : Z) : option bytes :=
   sh_bind (sh_le 4 (st_version t)) (fun ver =>
   sh_bind (lib_cs_enc (Z.of_nat (length (st_ins t)))) (fun ci =>
-  sh_bind (sh_oconcat (lib_legacy_in sid) (st_ins t)) (fun ins =>
+  sh_bind (sh_oconcat (fun o => o) (map_idx (lib_legacy_in_at bypos sid) O (st_ins t))) (fun ins =>
   sh_bind (lib_cs_enc (Z.of_nat (length (st_outs t)))) (fun co =>
   sh_bind (sh_oconcat lib_legacy_out (st_outs t)) (fun outs =>
   sh_bind (sh_le 4 (st_locktime t)) (fun lt =>
   sh_bind (sh_le 4 ht) (fun h =>
   Some (ver ++ ci ++ ins ++ co ++ outs ++ lt ++ h)))))))).
+
+Definition lib_legacy_preimage := lib_legacy_preimage_at true.
 
 (* ---- Transaction.signature_segwit(sign_id, hash_type) ----
    [fixed] selects the comparison in the elif that picks the single output:
@@ -370,29 +377,34 @@ Definition lib_bip143_preimage_at (fixed : bool) (t : stx) (i : nat) (ht : Z) : 
 Definition lib_bip143_preimage := lib_bip143_preimage_at true.
 
 (* ---- Transaction.signature(sign_id, hash_type, witness_type) ---- *)
-Definition lib_signature (t : stx) (sid : Z) (ht : Z) (wt : wtype) : option bytes :=
+Definition lib_signature_at (bypos : bool) (t : stx) (sid : Z) (ht : Z) (wt : wtype) : option bytes :=
   match wt with
-  | WT_legacy => lib_legacy_preimage t sid ht
+  | WT_legacy => lib_legacy_preimage_at bypos t sid ht
   | _ => if sid <? 0 then None else lib_bip143_preimage t (Z.to_nat sid) ht
   end.
 
 (* Transaction.signature_hash *)
-Definition lib_signature_hash (t : stx) (sid : Z) (ht : Z) (wt : wtype) : option bytes :=
-  match lib_signature t sid ht wt with Some p => Some (H p) | None => None end.
+Definition lib_signature_hash_at (bypos : bool) (t : stx) (sid : Z) (ht : Z) (wt : wtype) : option bytes :=
+  match lib_signature_at bypos t sid ht wt with Some p => Some (H p) | None => None end.
 
 (* Transaction.sign: digest for the input at list position p, by that input's own witness_type *)
-Definition lib_digest (t : stx) (p : nat) (ht : Z) : option bytes :=
+Definition lib_digest_at (bypos : bool) (t : stx) (p : nat) (ht : Z) : option bytes :=
   match nth_error (st_ins t) p with
-  | Some x => lib_signature_hash t (Z.of_nat p) ht (k_wtype (si_kind x))
+  | Some x => lib_signature_hash_at bypos t (Z.of_nat p) ht (k_wtype (si_kind x))
   | None => None
   end.
 
-(* Transaction.verify: for the input at position p it asks for sign_id = inp.index_n *)
-Definition lib_verify_digest (t : stx) (p : nat) (ht : Z) : option bytes :=
+(* Transaction.verify: for the input at position p it asks for sign_id = p (repaired) / inp.index_n (before) *)
+Definition lib_verify_digest_at (bypos : bool) (t : stx) (p : nat) (ht : Z) : option bytes :=
   match nth_error (st_ins t) p with
-  | Some x => lib_signature_hash t (si_index x) ht (k_wtype (si_kind x))
+  | Some x => lib_signature_hash_at bypos t (if bypos then Z.of_nat p else si_index x) ht (k_wtype (si_kind x))
   | None => None
   end.
+
+Definition lib_signature := lib_signature_at true.
+Definition lib_signature_hash := lib_signature_hash_at true.
+Definition lib_digest := lib_digest_at true.
+Definition lib_verify_digest := lib_verify_digest_at true.
 
 End Hashes.
 
@@ -416,7 +428,8 @@ Definition wf_stx (t : stx) : Prop :=
   Z.of_nat (length (st_ins t)) < 2 ^ 64 /\ Z.of_nat (length (st_outs t)) < 2 ^ 64 /\
   Forall wf_sin (st_ins t) /\ Forall wf_sout (st_outs t).
 
-(* Input.index_n equals the list position (what add_input / parse / shuffle establish) *)
+(* Input.index_n equals the list position (what add_input / parse / shuffle establish); only needed to speak
+   about the code before fixes/C01-2 *)
 Definition index_ok (t : stx) : Prop :=
   forall j x, nth_error (st_ins t) j = Some x -> si_index x = Z.of_nat j.
 
